@@ -85,6 +85,25 @@ Theorem C12_connected_ties_refuted :
 Proof. exact connected_ties_refuted. Qed.
 Print Assumptions C12_connected_ties_refuted.
 
+(* the Python `while needs_updating_count > 0` loop terminates for all tie-breaks: fuel
+   exhaustion (None) is excluded once the fuel exceeds a bound computed from the ids *)
+Theorem C12_terminates :
+  forall dfs thr (chl chr : chooser) nodes E,
+    NoDup (map n_id nodes) ->
+    exists fuel, forall fuel', (fuel <= fuel')%nat ->
+      oto_loop dfs (df_neighbours thr E) chl chr fuel' 1 (df_representatives nodes) <> None.
+Proof. exact loop_terminates. Qed.
+Print Assumptions C12_terminates.
+
+(* the enumeration used by X for tie-containing inputs (`oto_step_allowed`) accepts the step of
+   EVERY pair of legal tie-breaks: no false alarm can come from an engine's tie-break *)
+Theorem C12_allowed_complete :
+  forall dfs nbs (chl chr : chooser) it prev,
+    rank1_ok chl -> rank1_ok chr ->
+    oto_step_allowed dfs nbs prev (node_rep (oto_step dfs nbs chl chr it prev)) = true.
+Proof. exact allowed_complete. Qed.
+Print Assumptions C12_allowed_complete.
+
 (* non-vacuity: tests/test_cluster_using_single_best_links.py example 1 (a=0, b=1, c=2) *)
 Example C12_example_1 :
   one_to_one_clustering [0; 1; 2] (Some (1 # 2)%Q) first_max first_max 20
